@@ -219,9 +219,22 @@ impl<C: Config, Q: Query> Snapshot<C, Q> {
         }
 
         // join all handles
+        #[cfg(feature = "verif")]
+        qbice_storage::verif::task_point(
+            "tfc_join",
+            qbice_storage::verif::PointKind::Await,
+        )
+        .await;
         while let Some(handle) = join_set.join_next().await {
             handle.unwrap();
         }
+
+        #[cfg(feature = "verif")]
+        qbice_storage::verif::event(
+            "tfc_pass_end",
+            u64::from(matches!(caller_information.kind(), CallerKind::User)),
+            0,
+        );
     }
 
     #[allow(clippy::too_many_arguments)]
@@ -418,6 +431,13 @@ impl<C: Config, Q: Query> Snapshot<C, Q> {
                     let kind = self.query_kind().await.expect(
                         "should have query kind set in the previous session",
                     );
+
+                    #[cfg(feature = "verif")]
+                    qbice_storage::verif::task_point(
+                        "rp_before_check",
+                        qbice_storage::verif::PointKind::Preempt,
+                    )
+                    .await;
 
                     let decision = Self::check_callee(
                         self.engine(),
